@@ -13,7 +13,7 @@ PROPERTY = 'C07'
 FUNCTIONS = ['emd.sift.get_next_imf_mask', 'emd.sift.mask_sift', 'emd.sift.get_mask_freqs', 'emd.sift.zero_crossing_count',
              'emd.sift.get_next_imf (shared with the specification; its own semantics are C04)']
 BOUNDS = {
-    'quick': 'N = 6 symbolic samples in [-8,8]; get_next_imf_mask vs the masking rule for mask frequencies {0.3, 0.125}, symbolic amplitude in (0,4] '
+    'quick': 'N = 6 symbolic samples in [-8,8] (N = 7 for one ratio_imf configuration: on 6 samples the amplitude of the second mask can never matter); get_next_imf_mask vs the masking rule for mask frequencies {0.3, 0.125}, symbolic amplitude in (0,4] '
              '(1 phase) and amplitude 0.5 (2 phases; 3 phases on 2 workers, time-boxed), 1..2 worker processes; mask_sift: frequency ladder z/step^i for step factors {2,3}, user lists, '
              'zero-crossing source, amplitude modes {abs, ratio_sig, ratio_imf} with scalar and per-IMF amplitudes, returned frequencies; zero amplitude',
     'thorough': '3 and 4 phases, more frequencies, 3 IMFs, amplitude arrays in every mode',
@@ -43,9 +43,11 @@ def configs(tier):
                 ('gnim-z0.3-4phase-amp0.25-P1', {'kind': 'gnim', 'N': 6, 'z': 0.3, 'nphases': 4, 'amp': 0.25, 'P': 1, '_budget_s': 400})]
     for mode in ('abs', 'ratio_sig', 'ratio_imf'):
         for src in (('float2', 'list') if q else ('float2', 'float3', 'list')):
-            for amp in (('scalar',) if (q and mode != 'abs') else ('scalar', 'array')):
+            for amp in (('scalar',) if (q and mode == 'ratio_sig') else (('array',) if (q and mode == 'ratio_imf') else ('scalar', 'array'))):
                 out.append(('masksift-%s-%s-%s' % (mode, src, amp),
-                            {'kind': 'masksift', 'N': 6, 'mode': mode, 'src': src, 'ampkind': amp, 'nphases': 1, '_budget_s': 25 if q else 200}))
+                            {'kind': 'masksift', 'N': 6, 'mode': mode, 'src': src, 'ampkind': amp, 'nphases': 1, '_budget_s': (60 if (mode == 'ratio_imf' and amp == 'array') else 25) if q else 200}))
+    out.append(('masksift-ratio_imf-list-array-N7', {'kind': 'masksift', 'N': 7, 'mode': 'ratio_imf', 'src': 'list', 'ampkind': 'array', 'nphases': 1,
+                                                      '_budget_s': 60 if q else 400}))
     out.append(('masksift-abs-zc-scalar', {'kind': 'masksift', 'N': 6, 'mode': 'abs', 'src': 'zc', 'ampkind': 'scalar', 'nphases': 1,
                                            '_budget_s': 30 if q else 300}))
     return out
@@ -130,7 +132,7 @@ def masksift(h, X, N):
         imf, freqs = S.mask_sift(X, mask_freqs=z0, mask_step_factor=step, **kw)
         want_f = [z0 / step ** i for i in range(K)]
     elif src == 'list':
-        lst = [0.3, 0.125, 0.05]
+        lst = [0.3, 0.4, 0.05]     # a fast second mask: on 6 samples only a fast mask can make the amplitude of the second IMF matter
         imf, freqs = S.mask_sift(X, mask_freqs=lst, **kw)
         want_f = lst
     else:
